@@ -46,8 +46,9 @@ CHECKS = {
    text="Seeded simulation of real-PoW header chains mined by simulated miners with skewed/jumping clocks across all header versions and both retargets; every single-field header mutation (re-mined where needed) is delivered through process_block, process_block_header and sync_block_headers and must be refused and not stored; every honest header's difficulty is compared with an independent re-implementation of the retarget and its minimum/damp/clamp envelope; future-time-limit decode checked at the boundary with a one hour margin.",
    technique="deterministic simulation: seeded header histories with byzantine header mutations plus a reference retarget model"),
  "C06": dict(engine="chainsim", cat="exploration", ref="5/C06",
-   text="Twin simulation: a node and a twin receive the same seeded history, the node additionally receives inputs failing at every pipeline stage (including late root/size mismatches after the block touched the working MMRs, and failing header batches); the failing call must leave head, roots, sizes and the unspent view unchanged, and every later result and state digest must equal the twin's.",
-   technique="deterministic simulation: differential twin execution under injected invalid inputs"),
+   text="Twin simulation: a node and a twin receive the same seeded history, the node additionally receives inputs failing at every pipeline stage (including late root/size mismatches after the block touched the working MMRs, and failing header batches); the failing call must leave head, roots, sizes and the unspent view unchanged, and every later result and state digest must equal the twin's. Every fourth case (E11 netsim) the invalid blocks and headers come from a byzantine simulated peer through one real node's complete p2p stack (real Peers / Peer / Handshake / conn reader and writer threads / Protocol / NetToChainAdapter over loopback sockets, one message in flight): the state digest must be unchanged, nothing reported accepted, honest peers never banned, and after an honest peer offered the winning chain the node must equal a node that applied that chain alone.",
+   technique="deterministic simulation: differential twin execution under injected invalid inputs; lock-stepped simulated peers against the real p2p stack",
+   note="Trusted base: the harness wallet/miner/reference models in /verif/sim; AutomatedTesting chain parameters; chainsim cases stub p2p and the servers adapters (call order mirrored), netsim cases run them for real and stub only the remote peers and the sync/seed/monitor loops. Sampling, not enumeration: a clean batch is evidence, not proof."),
  "C13": dict(engine="chainsim", cat="exploration", ref="5/C13",
    text="Seeded simulation over fork trees whose honest spends and locks sit exactly on the maturity / lock-height / NRD thresholds on every fork and byzantine blocks one step inside each threshold; honest blocks must be accepted (also when re-applied through a reorg), byzantine ones refused, across restarts and delivery orders. Pool clause (every fourth case, poolsim): a real TransactionPool on a real chain receives seeded interleavings of spends of coinbases one block before / exactly at maturity and of lock heights next-block / beyond, with blocks and reorgs moving the thresholds; add_to_pool must refuse / accept exactly as the rule model says.",
    technique="deterministic simulation: seeded fork histories and pool submission interleavings with threshold-boundary workloads against a per-branch rule model"),
@@ -55,8 +56,9 @@ CHECKS = {
    text="Seeded simulation: after every delivery (forks, reorgs, restarts) the committed bitmap root must equal an accumulator built from scratch over the reported unspent set and an independent re-implementation; a re-mined block committing to a bitmap with one flipped bit must be refused.",
    technique="deterministic simulation: seeded apply/rewind histories against a from-scratch bitmap commitment model"),
  "C03": dict(engine="chainsim", cat="exploration", ref="5/C03",
-   text="Seeded simulation: real Chain replicas are fed generated fork trees (real PoW worlds and SKIP_POW worlds with free per-block difficulties) in seeded delivery orders with duplicates, child-before-parent, header batches (also overlapping what the node already has) and clean restarts, including worlds whose forks leave a 56-66 block trunk more than 50 blocks below its tip; after every delivery head/header_head are compared with a most-work model driven by the node's own accept events, and at quiescence every replica must equal a reference node fed the winning chain alone and pass full validation.",
-   technique="deterministic simulation: seeded schedule search over block/header delivery orders against a most-work reference model"),
+   text="Seeded simulation: real Chain replicas are fed generated fork trees (real PoW worlds and SKIP_POW worlds with free per-block difficulties) in seeded delivery orders with duplicates, child-before-parent, header batches (also overlapping what the node already has) and clean restarts, including worlds whose forks leave a 56-66 block trunk more than 50 blocks below its tip; after every delivery head/header_head are compared with a most-work model driven by the node's own accept events, and at quiescence every replica must equal a reference node fed the winning chain alone and pass full validation. Every fourth case (E11 netsim) a real-PoW world reaches one real node through its complete p2p stack (real Peers / Peer / Handshake / conn reader and writer threads / Protocol / TrackingAdapter / NetToChainAdapter over loopback sockets) from 2-3 simulated peers that keep one message in flight: header-first announcements, unsolicited compact and full blocks, children before parents, duplicates, reconnects, unanswered requests; the node's own requests (compact block after a header, full block after failed hydration, parent of an orphan) are served by seeded policy; head must always be an accepted block of greatest work, orphans must be adopted once their parent is there, honest peers are never banned, and the final state must equal the reference node's.",
+   technique="deterministic simulation: seeded schedule search over block/header delivery orders against a most-work reference model; lock-stepped simulated peers against the real p2p stack",
+   note="Trusted base: the harness wallet/miner/reference models in /verif/sim; AutomatedTesting chain parameters; chainsim cases stub p2p and the servers adapters (call order mirrored), netsim cases run them for real and stub only the remote peers and the sync/seed/monitor loops. Sampling, not enumeration: a clean batch is evidence, not proof."),
  "C02": dict(engine="chainsim", cat="exploration", ref="5/C02",
    text="Seeded simulation over spend-heavy fork trees plus byzantine blocks (double spend, never-created input, fork-foreign input, duplicated unspent commitment): after every delivery get_unspent over every commitment ever created and the paged enumeration must equal the ledger replayed from the node's own best chain; invalid blocks must be refused.",
    technique="deterministic simulation: seeded delivery histories with byzantine blocks against a replayed-ledger reference model"),
@@ -128,6 +130,8 @@ def main():
              "kind_free_text": "seeded baton scheduler over real threads on one real Chain"},
             {"name": "dbsim", "path": "/verif/sim/src/dbsim.rs", "serves_properties": [p for p in claimed if p == "C18"],
              "kind_free_text": "real LMDB wrapper against a nested-transaction map model; seeded thread schedules; crash points around commit"},
+            {"name": "netsim", "path": "/verif/sim/src/netsim.rs", "serves_properties": [p for p in claimed if p in ("C03", "C06")],
+             "kind_free_text": "one real node with its complete p2p stack (Peers, Peer, Handshake, conn threads, Protocol, servers adapters, pool, chain) against simulated remote peers on lock-stepped loopback sockets"},
             {"name": "chainsim", "path": "/verif/sim/src/chainsim.rs", "serves_properties": [p for p in claimed if CHECKS[p]["engine"] == "chainsim" or p == "C08"],
              "kind_free_text": "deterministic simulation of N real Chain nodes on a simulated network with byzantine inputs"},
         ],
